@@ -97,21 +97,21 @@ func fingerprint(st *exec.RunStats, p *gen.Program) string {
 
 // apiBatchResult aggregates.
 type apiAgg struct {
-	Cases        int
-	FPs          map[string]int
-	Transitions  map[string]int // number of programs that drove each transition
-	Steps        int
-	APIChecks    int
-	CursorCalls  int
-	DumpChecks   int
-	FileDecodes  int
-	TxChecks     int
-	Commits      int
-	Rollbacks    int
-	Reopens      int
-	ErrProbes    int
-	Samples      []string
-	NonTrivial   map[string]bool
+	Cases       int
+	FPs         map[string]int
+	Transitions map[string]int // number of programs that drove each transition
+	Steps       int
+	APIChecks   int
+	CursorCalls int
+	DumpChecks  int
+	FileDecodes int
+	TxChecks    int
+	Commits     int
+	Rollbacks   int
+	Reopens     int
+	ErrProbes   int
+	Samples     []string
+	NonTrivial  map[string]bool
 }
 
 func newAgg() *apiAgg {
@@ -241,6 +241,9 @@ func (c *Ctx) runPrograms(progs []*gen.Program, mon exec.Monitors, batch int, bu
 				continue
 			}
 			agg.add(cs, p, nontrivial(cs))
+			if cs.Stats.Transcript != "" && len(cs.Viol) == 0 {
+				c.transcripts = append(c.transcripts, transcriptRec{base: fmt.Sprintf("seed%d-case%d", p.Seed, p.Case), hash: cs.Stats.Transcript, file: filepath.Base(cs.File)})
+			}
 			if len(cs.Viol) > 0 {
 				rp := c.keepReplay(cs.File)
 				v := cs.Viol[0]
